@@ -387,7 +387,7 @@ func init() {
 					l.Outcome("condition regressed under a stale read: " + strings.Join(obs.regressed, ","))
 				}
 				for _, v := range obs.viol {
-					l.Violation(v.Sig, fmt.Sprintf("%s  [scenario=%s history=%v]", v.Msg, sc.name, history), map[string]any{"scenario": sc.name, "choices": run.Choices(), "faults": run.Plan(), "history": history, "calls": callStrings(obs.w)})
+					l.Violation(v.Sig, fmt.Sprintf("%s  [scenario=%s history=%v]", v.Msg, sc.name, history), map[string]any{"scenario": sc.name, "choices": run.Choices(), "faults": run.Plan(), "rounds": rounds, "history": history, "calls": callStrings(obs.w)})
 				}
 				if len(run.Choices()) > 0 && run.Used == bound && len(history)%5 == 0 {
 					l.Sample(map[string]any{"scenario": sc.name, "history": history, "final": final})
@@ -401,5 +401,33 @@ func init() {
 				r.Exhaustive = false
 			}
 		})
+	})
+}
+
+func init() {
+	registerReplay("C14", func(d map[string]any) []string {
+		name, _ := d["scenario"].(string)
+		rounds := 6
+		if f, ok := d["rounds"].(float64); ok {
+			rounds = int(f)
+		}
+		for _, sc := range lcScenarios {
+			if sc.name != name {
+				continue
+			}
+			obs, history, final := c14Run(sc, explore.ReplayPlan(intList(d["choices"]), intMap(d["faults"])), rounds)
+			fmt.Printf("scenario %s\nhistory %v\nfinal %s\n", sc.name, history, final)
+			for _, c := range callStrings(obs.w) {
+				fmt.Println("  call:", c)
+			}
+			var sigs []string
+			for _, v := range obs.viol {
+				fmt.Printf("violation %q: %s\n", v.Sig, v.Msg)
+				sigs = append(sigs, v.Sig)
+			}
+			return sigs
+		}
+		fmt.Println("unknown scenario", name)
+		return nil
 	})
 }
